@@ -23,6 +23,45 @@ async fn run(name: &str) -> Result<(), String> {
     std::fs::create_dir_all(root.join("test")).unwrap();
     std::fs::create_dir_all(root.join("tests")).unwrap();
     match name {
+        // C11 (BOUNDED: 4 configurations x all events of 1..2 paths over 7 paths x 3 file types): the default path filterer's verdict is the documented rule
+        "globset_rule_bounded" => {
+            use watchexec_filterer_globset::GlobsetFilterer;
+            // (name, is matched by an ignore pattern, matches a filter pattern, extension)
+            let names: [(&str, bool, bool, &str); 7] = [("keep.rs", false, true, "rs"), ("doc.md", false, false, "md"), ("plain.txt", false, false, "txt"),
+                ("skip.toml", true, false, "toml"), ("gen.rs.bak", false, false, "bak"), ("skip.rs.toml", true, false, "toml"), ("noext", false, false, "")];
+            let types = [Some(FileType::File), Some(FileType::Dir), None];
+            let watched = root.join("watched.cfg");
+            let mut checked = 0usize;
+            for (with_ignores, with_filters, with_exts) in [(false, false, false), (true, false, false), (true, true, false), (true, true, true)] {
+                let ignores: Vec<(String, Option<PathBuf>)> = if with_ignores { vec![("*.toml".into(), None)] } else { vec![] };
+                let filters: Vec<(String, Option<PathBuf>)> = if with_filters { vec![("*.rs".into(), None)] } else { vec![] };
+                let exts: Vec<std::ffi::OsString> = if with_exts { vec!["md".into()] } else { vec![] };
+                let f = GlobsetFilterer::new(&root, filters, ignores, vec![watched.clone()], vec![], exts).await.map_err(|e| e.to_string())?;
+                // per path: Some(true) passes, Some(false) rejected by rule
+                let path_ok = |i: usize, t: Option<FileType>| -> bool {
+                    let (_, ign, fil, ext) = names[i];
+                    if with_ignores && ign { return false; }
+                    if !with_filters && !with_exts { return true; }
+                    (with_filters && fil) || (with_exts && ext == "md" && t != Some(FileType::Dir))
+                };
+                let mut events: Vec<Vec<(usize, Option<FileType>)>> = vec![];
+                for a in 0..names.len() { for ta in types { events.push(vec![(a, ta)]); for b in 0..names.len() { for tb in types { events.push(vec![(a, ta), (b, tb)]); } } } }
+                for ev in events {
+                    let tags = ev.iter().map(|(i, t)| Tag::Path { path: root.join(names[*i].0), file_type: *t }).collect();
+                    let e = Event { tags, metadata: Default::default() };
+                    let got = f.check_event(&e, Priority::Normal).map_err(|e| e.to_string())?;
+                    let want = ev.iter().any(|(i, t)| path_ok(*i, *t));
+                    checked += 1;
+                    if got != want { return Err(format!("ignores={with_ignores} filters={with_filters} exts={with_exts}: event with paths {:?} {} but the rule says it {}", ev.iter().map(|(i, t)| (names[*i].0, *t)).collect::<Vec<_>>(), if got { "passes" } else { "is rejected" }, if want { "passes" } else { "is rejected" })); }
+                }
+                // an event naming the explicitly watched file always passes; an event without paths always passes
+                let e = Event { tags: vec![Tag::Path { path: watched.clone(), file_type: None }, Tag::Path { path: root.join("skip.toml"), file_type: Some(FileType::File) }], metadata: Default::default() };
+                if !f.check_event(&e, Priority::Normal).map_err(|e| e.to_string())? { return Err(format!("ignores={with_ignores} filters={with_filters} exts={with_exts}: an event naming the explicitly watched file (next to an ignored path) was rejected")); }
+                if !f.check_event(&Event::default(), Priority::Normal).map_err(|e| e.to_string())? { return Err("an event without paths was rejected".into()); }
+            }
+            println!("INFO globset_rule_bounded: {checked} events");
+            Ok(())
+        }
         // C14 (BOUNDED: one hand-made tree exercising every clause): discovery returns exactly the applicable files, each tagged with its directory
         "discovery_exact_on_a_small_tree" => {
             use std::collections::BTreeSet;
